@@ -34,6 +34,10 @@ func init() {
 		return nil
 	}
 	libModels["log.Fatal"] = libModels["log.Fatalf"]
+	// strings.Join: some string (a function of its arguments; which one is not modelled)
+	libModels["strings.Join"] = func(fr *frame, in ssa.Instruction, c *ssa.CallCommon, args []Val, st *State, reach string) Val {
+		return fr.fc.fresh("joined", SString)
+	}
 }
 
 // swapField: the index of the slice field of struct type T whose elements T.Swap stores to.
